@@ -31,9 +31,11 @@ def shard_source(units, extra_head="", strum_use="use strum::*;"):
     parts = [SHARD_HEAD, extra_head]
     seen_heads = set()
     for u in units:
-        if u.head and u.head not in seen_heads:
-            seen_heads.add(u.head)
-            parts.append(u.head)
+        frags = u.head if isinstance(u.head, (list, tuple)) else [u.head]
+        for fr in frags:
+            if fr and fr not in seen_heads:
+                seen_heads.add(fr)
+                parts.append(fr)
     ranges = {}
     src = "\n".join(parts) + "\n"
     line = src.count("\n") + 1
